@@ -1331,7 +1331,7 @@ class ConnectionBase(object):
 
         for seqnum in list(self.pending_acks):
             diff = hdr.ack.diff(seqnum)
-            if diff == 0 or (1 <= diff <= 32 and (hdr.ack_bits&(0x80000000>>(diff-1)))):
+            if hdr.ack != 0 and (diff == 0 or (1 <= diff <= 32 and (hdr.ack_bits&(0x80000000>>(diff-1))))):
                 self._handle_ack(seqnum)
             elif self.last_recv_time - self.pending_acks[seqnum] > self.outgoing_timeout:
                 self._handle_timeout(seqnum)
